@@ -1,6 +1,7 @@
 package world
 
 import (
+	"context"
 	"fmt"
 	"io"
 	"net/http"
@@ -250,6 +251,12 @@ func (w *World) DoFail(req *http.Request, failAt int) *Reply {
 	if failAt < 0 {
 		rw = &failWriter{ResponseRecorder: rec, afterBytes: -failAt} // negative: fail after that many bytes
 	}
+	// like net/http, every request carries a context that CAN be cancelled and is cancelled once the handler has returned
+	if req.Context().Done() == nil {
+		ctx, cancel := context.WithCancel(req.Context())
+		defer cancel()
+		req = req.WithContext(ctx)
+	}
 	before := w.Store.CallCount()
 	spawnedBefore := vhook.GoSpawned.Load()
 	rep := &Reply{}
@@ -359,7 +366,12 @@ func FindCall(calls []Call, op string) *Call {
 // Shape turns req into another request that net/http could equally well hand to the handler for the same client message: these
 // are properties of the connection / framing, not of the SAML message.
 
-var HTTPShapes = []string{"", "chunked", "short-reads", "http10", "http2", "absolute-uri", "proxy-headers", "cors-origin", "keep-alive-extras"}
+var HTTPShapes = []string{"", "chunked", "short-reads", "http10", "http2", "absolute-uri", "proxy-headers", "cors-origin", "keep-alive-extras", "context-with-issuer", "context-with-values"}
+
+// CtxShapes: request contexts that are done when the handler starts (the storage double does not look at the context).
+var CtxShapes = []string{"", "context-cancelled", "context-deadline-exceeded"}
+
+type ctxKey string
 
 type oneByteReader struct{ r io.Reader }
 
@@ -409,6 +421,18 @@ func Shape(req *http.Request, kind string) *http.Request {
 		req.Header.Set("Origin", "https://sp-a.example")
 		req.Header.Set("Referer", "https://sp-a.example/login?x=1")
 		req.Header.Set("Sec-Fetch-Site", "cross-site")
+	case "context-with-issuer":
+		// upstream middleware (another provider's interceptor, the login UI) already put AN issuer into the context
+		req = req.WithContext(provider.ContextWithIssuer(req.Context(), "http://upstream.example/legacy"))
+	case "context-with-values":
+		req = req.WithContext(context.WithValue(context.WithValue(req.Context(), ctxKey("issuer"), "http://evil.example"), ctxKey("tenant"), "t-1"))
+	case "context-cancelled", "context-deadline-exceeded":
+		ctx, cancel := context.WithCancel(req.Context())
+		if kind == "context-deadline-exceeded" {
+			ctx, cancel = context.WithDeadline(req.Context(), time.Unix(1, 0))
+		}
+		cancel()
+		req = req.WithContext(ctx)
 	case "keep-alive-extras":
 		req.Header.Set("Connection", "keep-alive")
 		req.Header.Set("Accept", "text/html,application/xhtml+xml;q=0.9,*/*;q=0.8")
